@@ -89,6 +89,22 @@ def parse_result(text):
     return ("other", text)
 
 
+def top_items(text):
+    """top-level items of a rendered list '( a ( b c ) d )' -> ['a', '( b c )', 'd']"""
+    toks = text.split()
+    items, depth, cur = [], 0, []
+    for t in toks[1:-1]:
+        cur.append(t)
+        if t == "(":
+            depth += 1
+        elif t == ")":
+            depth -= 1
+        if depth == 0:
+            items.append(" ".join(cur))
+            cur = []
+    return items
+
+
 def linearizable(init, ops, final):
     """ops: list of dicts kind/old/new/res/first/last.  Exact-value register with CAS.
     final: result of a sequential read after everything, or None to ignore."""
@@ -249,7 +265,10 @@ class Main(Suite):
             if r is None or not isinstance(r.get("extra"), dict):
                 fails[c["id"]] = "no history from the implementation"
                 continue
-            if model.get(c["id"]) is not None and model[c["id"]] == r["out"]:
+            # "exactly what the pristine model predicts": same per-thread results, same files, same final read
+            # (the step trace may differ; that is reported separately as a broken correspondence)
+            m = model.get(c["id"])
+            if m is not None and top_items(m)[1:] == top_items(r["out"])[1:]:
                 self.agree.add(c["id"])
             ops, final = self.history(c, r)
             init = initial_value(c)
